@@ -234,7 +234,10 @@ func H_C10_History(v *verifrt.T) {
 			// acyclic while names are queued once
 			cur := prev
 			for hops := 0; hops < len(c10names)+1 && cur != ""; hops++ {
-				v.AssertKF(cur != e.name, "C10.O3 announced predecessors form no cycle", "KF-C10-repush-drops-prev", repushed)
+				// (a name pushed again is a new version that may legitimately follow a
+				// file which followed its old version: by name that is a cycle, and the
+				// property promises acyclicity only while every name is queued once)
+				v.Assert(verifrt.Or(repushed, cur != e.name), "C10.O3 while every name is queued once, announced predecessors form no cycle")
 				cur = prevOf[cur]
 			}
 		}
